@@ -883,8 +883,9 @@ class MapType(_ParameterizedType):
             length = 2
         numelements = unpack(byts[:length])
         p = length
-        themap = util.OrderedMapSerializedKey(key_type, protocol_version)
         inner_proto = max(3, protocol_version)
+        # keys are looked up by re-serializing them: use the layout they arrived in
+        themap = util.OrderedMapSerializedKey(key_type, inner_proto)
         for _ in range(numelements):
             key_len = unpack(byts[p:p + length])
             p += length
